@@ -24,6 +24,20 @@ CLAIMED.update({
    note="Canonical state = association list including which key object is stored (sound: a map's future is a function of its stored pairs). Keys outside the domain are not covered.",
    technique="explicit-state BFS over operation histories with canonical-state de-duplication + exhaustive pair table"),
 })
+CLAIMED.update({
+ "C02": dict(level="model_checking", design="4.2",
+   text="Exhaustive program enumeration against a reference evaluator: E1 all applications of 27 operators/constructs to probe-call leaves (7-value domain) at depth 1 and all depth-2 nestings in both operand positions (value and evaluation order of every operand position observed); E2 all sequences of <=3 (thorough 4) statements from a pool of 67 concrete statements that place names, closures, recursion, containers, match, jumps and returns both validly and invalidly; F return inside filter actions. Observation sequence, final value, runtime-error presence and compile-time rejection are compared for every program.",
+   note="Trusts RefEval (mc/src/refeval.rs, refval.rs, refbuiltins.rs), derived from the statements, not the code. Programs the statements leave open are counted as skipped_unspecified. Programs beyond the size bounds are not covered.",
+   technique="bounded exhaustive program enumeration, differential against a reference interpreter"),
+ "C04": dict(level="model_checking", design="4.4",
+   text="Every scope skeleton (ordered forest) with <=4 (thorough 5) nodes and depth <=3 over 10 node kinds (let x/y, write, block, function, function with shadowing parameter, closure, returned closure called later, recursive function, recursion through a nested helper closure); in family V every visible name is observed after every statement and every function is called right after its definition and again later; family I adds one use at every position where the name is not visible and expects a compile error. Oracle: RefEval's lexical resolver and capture-by-value semantics.",
+   note="Trusts RefEval's scoping/capture rules (Appendix A of DESIGN.md). Skeletons beyond the bounds are not covered.",
+   technique="bounded exhaustive enumeration of scope skeletons, differential against a reference interpreter"),
+ "C05": dict(level="model_checking", design="4.5",
+   text="Three exhaustive tables against RefEval: match (every scrutinee value of 5 kinds through a recording probe x every pattern alternative: literals, all ranges incl. empty/reversed, 2- and 3-alternative combinations, default; 3 body shapes; one- and two-arm matches; all mixed-kind arm pairs), if chains (1-3 conditions over truthiness representatives x 5 branch shapes x with/without else), loop nests (depth 1-3 of while/loop x labels x one break/continue to every visible or unknown label at every position x every iteration index of a 3-wide counter grid).",
+   note="Trusts RefEval. Negative integer patterns cannot be written in the grammar; range patterns against a scrutinee of another kind are counted as unspecified.",
+   technique="exhaustive table enumeration of control-flow programs, differential against a reference interpreter"),
+})
 NOT_YET = "check not built yet in this round (machinery under construction; see DESIGN.md section 4 for the planned check)"
 
 props = [json.loads(l) for l in open(os.path.join(HERE, "properties.jsonl"))]
